@@ -117,6 +117,7 @@ class Event:
     depth: int = 0
     seq: int = 0
     snap: dict | None = None  # attributes of object arguments at call time
+    conds: tuple = ()  # path condition under which the call is evaluated
 
 
 @dataclass
@@ -124,9 +125,10 @@ class State:
     env: dict = field(default_factory=dict)
     live: bool = True
     ret: tuple | None = None
+    conds: tuple = ()  # path condition: ((cond term, polarity), ...)
 
     def copy(self):
-        return State(dict(self.env), self.live, self.ret)
+        return State(dict(self.env), self.live, self.ret, self.conds)
 
 
 class Evaluator:
@@ -248,6 +250,8 @@ class Frame:
         self.concrete = concrete or f.cls
         self.depth = depth
         self.local_imports = self.repo.function_imports(f)
+        self.cur = None
+        self.outer_conds = ()
 
     # ------------------------------------------------------------ blocks
     def exec_block(self, stmts, st: State):
@@ -265,6 +269,7 @@ class Frame:
 
     def exec_stmt(self, s, st: State):
         ev = self.ev
+        self.cur = st
         if isinstance(s, ast.Return):
             v = self.eval(s.value, st) if s.value is not None else T.NONE
             self._do_return(st, v)
@@ -320,8 +325,20 @@ class Frame:
         if d is None and self.ev.assume is not None:
             d = self.ev.assume(cond)
             if d is None and cond[0] == "not":
-                inner = self.ev.assume(cond[1])
+                inner = self.decide(cond[1])
                 d = None if inner is None else (not inner)
+            elif d is None and cond[0] in ("and", "or"):
+                parts = [self.decide(c) for c in cond[1]]
+                if cond[0] == "and":
+                    if any(p is False for p in parts):
+                        d = False
+                    elif all(p is True for p in parts):
+                        d = True
+                else:
+                    if any(p is True for p in parts):
+                        d = True
+                    elif all(p is False for p in parts):
+                        d = False
         return d
 
     def exec_if(self, s: ast.If, st: State):
@@ -336,11 +353,13 @@ class Frame:
         heap0 = dict(self.ev.heap)
         a = st.copy()
         a.ret = T.CONT if st.ret is None else st.ret
+        a.conds = st.conds + ((cond, True),)
         self.exec_block(s.body, a)
         heap_a = self.ev.heap
         self.ev.heap = dict(heap0)
         b = st.copy()
         b.ret = T.CONT if st.ret is None else st.ret
+        b.conds = st.conds + ((cond, False),)
         self.exec_block(s.orelse, b)
         heap_b = self.ev.heap
         # merge
@@ -355,9 +374,11 @@ class Frame:
             st.ret = _merge_ret(st.ret, cond, a.ret, b.ret)
         if a.live and not b.live:
             st.env = a.env
+            st.conds = a.conds
             self.ev.heap = heap_a
         elif b.live and not a.live:
             st.env = b.env
+            st.conds = b.conds
             self.ev.heap = heap_b
         else:
             st.env = _merge_maps(cond, a.env, b.env)
@@ -452,6 +473,7 @@ class Frame:
                 newv = ("d", tuple(items))
             else:
                 newv = ("f", "setitem", (base, idx, v), ())
+            self._record("setitem", [base, idx, v], {}, stmt, newv, None)
             if isinstance(tgt.value, ast.Name):
                 st.env[tgt.value.id] = newv
             elif isinstance(tgt.value, ast.Attribute):
@@ -985,6 +1007,7 @@ class Frame:
 
     def _inline(self, f, cls, recv, args, kwargs, e):
         fr = Frame(self.ev, f, cls if isinstance(cls, ClassInfo) else f.cls, self.depth + 1)
+        fr.outer_conds = self.outer_conds + (self.cur.conds if self.cur is not None else ())
         return fr._run_inline(f, cls, recv, args, kwargs)
 
     def _run_inline(self, f, cls, recv, args, kwargs):
@@ -1042,7 +1065,8 @@ class Frame:
         ev = self.ev
         ev.events.append(
             Event(callee, tuple(args), tuple(sorted(kwargs.items())), e, self.f, result, recv, self.depth,
-                  next(ev._seq), ev.snapshot(list(args) + ([recv] if recv is not None else [])))
+                  next(ev._seq), ev.snapshot(list(args) + ([recv] if recv is not None else [])),
+                  self.outer_conds + (self.cur.conds if getattr(self, "cur", None) is not None else ()))
         )
 
     def _event(self, callee, args, kwargs, e, recv, pure=False):
